@@ -59,15 +59,21 @@ def material(draw, mid):
     entries = []
     nuclides = []
     labels = set()
+    mixed_signs = None
+    if sign_mode == 'mixed' and n >= 2:
+        # any pattern with at least one entry of each sign (negative first,
+        # positive first, a single odd one out anywhere, ...)
+        mixed_signs = [draw(st.booleans()) for _ in range(n)]
+        k = draw(st.integers(0, n - 1))
+        mixed_signs[k] = not mixed_signs[(k + 1) % n]
     for q in range(n):
         if draw(st.integers(0, 7)) == 0:
             entries.append(draw(st.sampled_from(KEYWORDS)))
             labels.add('keyword-entry')
         z, a, text = draw(zaid())
         frac = draw(st.sampled_from(FRACTIONS))
-        neg = sign_mode == 'neg' or (sign_mode == 'mixed' and q % 2 == 1)
-        if sign_mode == 'mixed' and n == 1:
-            neg = False
+        neg = sign_mode == 'neg' or (mixed_signs is not None
+                                     and mixed_signs[q])
         spelled = ('-' + frac) if neg else frac
         entries.append((text, spelled))
         nuclides.append((z, a, frac, neg))
